@@ -134,7 +134,7 @@ def finish(prop, tier, seed, obs, meta, t0):
     rdir = os.path.join(VERIF, 'replays', prop)
     lines = []
     for o, e in kf:
-        lines.append('KNOWN-FINDING: property=%s %s (obligation %s)' % (prop, e['what'], o['id']))
+        lines.append('KNOWN-FINDING: property=%s %s' % (prop, e['what']))
     for o in viol:
         os.makedirs(rdir, exist_ok=True)
         path = os.path.join(rdir, re.sub(r'[^A-Za-z0-9_.-]', '_', o['id']) + '.json')
